@@ -4,7 +4,7 @@
 //! thread on the simulated file system, network, clock and signal source. The harness edits
 //! files, raises SIGHUP, waits until the signal loop is idle again, and observes what is served
 //! *through UDP datagrams on the simulated network* - the property's own observation point.
-use super::c31::{apply_edits, decode_obs, expected, next_model, with_alts, path_of, query, write_config, Files, Obs, Scn, Served, Step, UNIVERSE};
+use super::c31::{apply_edits, decode_obs, expected, keys_toml, next_model, with_alts, path_of, query, write_config, Files, Obs, Scn, Served, Step, UNIVERSE};
 use crate::args::{RunArgs, ZoneDescription};
 use crate::driver::world_cfg;
 use crate::run as daemon;
@@ -120,7 +120,7 @@ pub fn run(scn: &Scn) {
         let now_s = simrt::time::wall_secs();
         apply_edits(step, now_s, &mut files);
         if !args_mode {
-            write_config(step, cfg_path, preamble, &tail);
+            write_config(step, cfg_path, preamble, &format!("{tail}{}", keys_toml(scn, si)));
         }
         let expect_ok = step.config_fault == 0;
         let served_before = served.clone();
